@@ -81,6 +81,7 @@ static int open_damaged(const std::string &path, const Bytes &bytes, bool verify
 	mtbl_reader_options *ro = make_reader_options(verify, optvar_next() & 1);
 	int outcome;
 	sim_mmap_exact_heap(1);
+	sim_mmap_track(1);	// a descriptor opened by mtbl_reader_init and orphaned by a trapped assertion is closed afterwards
 	if (SIM_TRAP_TRY()) {
 		mtbl_reader *rd;
 		if (by_fd) { int fd = open(path.c_str(), O_RDONLY); rd = mtbl_reader_init_fd(fd, ro); close(fd); }
@@ -88,7 +89,8 @@ static int open_damaged(const std::string &path, const Bytes &bytes, bool verify
 		SIM_TRAP_END();
 		outcome = rd ? 1 : 0;
 		if (rd) mtbl_reader_destroy(&rd);
-	} else outcome = 2;
+	} else { outcome = 2; sim_mmap_release_leaked(); }
+	sim_mmap_track(0);
 	sim_mmap_exact_heap(0);
 	mtbl_reader_options_destroy(&ro);
 	static const char *names[] = { "open-returned-NULL", "open-returned-reader", "open-stopped-on-assert" };
@@ -102,8 +104,10 @@ static bool read_with_verify(const std::string &path, int how, const Bytes &targ
 {
 	got.clear(); trapped = false; opened = false;
 	mtbl_reader_options *ro = make_reader_options(true, optvar_next() & 1);
-	mtbl_reader *rd = nullptr;
-	mtbl_iter *it = nullptr;
+	// (volatile: assigned between setjmp and longjmp)
+	mtbl_reader *volatile rd = nullptr;
+	mtbl_iter *volatile it = nullptr;
+	sim_mmap_track(1);
 	if (SIM_TRAP_TRY()) {
 		rd = mtbl_reader_init(path.c_str(), ro);
 		if (rd) {
@@ -125,11 +129,20 @@ static bool read_with_verify(const std::string &path, int how, const Bytes &targ
 				it = mtbl_source_get_range(s, (const uint8_t *)target.data(), target.size(), (const uint8_t *)"\xff\xff\xff\xff", 4);
 				for (int i = 0; i < 3 && mtbl_iter_next(it, &k, &kl, &v, &vl) == mtbl_res_success; i++) got.push_back({ Bytes((const char *)k, kl), Bytes((const char *)v, vl) });
 			}
-			mtbl_iter_destroy(&it);
-			mtbl_reader_destroy(&rd);
+			{ mtbl_iter *i2 = it; mtbl_iter_destroy(&i2); it = nullptr; }
+			{ mtbl_reader *r2 = rd; mtbl_reader_destroy(&r2); rd = nullptr; }
 		}
 		SIM_TRAP_END();
-	} else trapped = true;	// (reader / iterator leaked on purpose: the process "stopped")
+	} else {
+		// the process "stopped" on an assertion.  What the harness still holds is released (the assertion fires before
+		// the library changes any of its structures); a reader that was still being built is unreachable, its mapping
+		// is released through the seam.  Exhaustive sweeps go through here tens of thousands of times per process.
+		trapped = true;
+		if (it) { mtbl_iter *i2 = it; mtbl_iter_destroy(&i2); }
+		if (rd) { mtbl_reader *r2 = rd; mtbl_reader_destroy(&r2); }
+		sim_mmap_release_leaked();
+	}
+	sim_mmap_track(0);
 	mtbl_reader_options_destroy(&ro);
 	return true;
 }
@@ -293,7 +306,14 @@ static RunResult exec_corrupt(const Plan &p)
 			for (int blk = 0; blk <= nb && !res.viol; blk++) {
 				const mfmt::DBlock &db = blk == nb ? b.df.index : b.df.data[blk];
 				uint64_t lo = db.off + db.len_len, hi = db.payload_off + db.stored_len;
-				for (uint64_t bit = 0; bit < (hi - lo) * 8 && !res.viol; bit++) {
+				// exhaustive for blocks up to 20000 bits; larger ones (a 200 KB value makes 1.6 million cases): every bit of the
+				// first and last 4096 and an even sample of 8192 in between; at most 120000 cases per plan
+				uint64_t nbits = (hi - lo) * 8;
+				uint64_t stride = nbits <= 20000 ? 1 : (nbits - 8192) / 8192 + 1;
+				if (stride > 1) res.probes["sweep-sampled-large-block"]++;
+				for (uint64_t bit = 0; bit < nbits && !res.viol; bit++) {
+					if (stride > 1 && bit >= 4096 && bit + 4096 < nbits && (bit - 4096) % stride != 0) continue;
+					if (cases >= 120000) { res.probes["sweep-stopped-at-case-budget"]++; break; }
 					Bytes dam = b.file;
 					dam[lo + bit / 8] ^= (char)(1u << (bit % 8));
 					check_damaged(b, res, dpath, dam, blk, (int)(bit % 3 == 0 ? 1 : 0), false, "bit " + std::to_string(bit) + " flipped");
